@@ -17,7 +17,8 @@ RULE = ("every connected labelled multigraph topology up to the listed levels x 
         "ladders x frequency sweep through the sweep wrappers. A port query is judged when its exact reference "
         "(sources deactivated, unit current injected, parts reachable only through open branches dropped) is finite; "
         "states = distinct (network, reference) pairs judged, transitions = library port/Thevenin queries judged; "
-        "non-trivial = judged network with at least one non-zero port impedance")
+        "non-trivial = judged network with at least one non-zero port impedance"
+        ' Additions: palettes small and eq.')
 ASSUMPTIONS = ["numpy.linalg accuracy on the palettes", "islands of two or more nodes hanging on open branches are outside the domain"]
 EXPLANATION = "direct exploration of the real port-impedance, open-circuit-voltage, short-circuit-current and equivalent-source code"
 KINDS_P = ("Z", "V", "I", "LV", "Y", "LI", "open")
